@@ -220,20 +220,11 @@ class DataPath:
         return cls(*spec_resolved_parts)
 
     def to_part_specs(self):
-        parts = []
-        for i in self.parts:
-            try:
-                part_spec = i.condition.callable.kwargs["value"]
-            except KeyError:
-                if isinstance(i, MapOrListValue):
-                    part_spec = i.list_condition.callable.kwargs["value"]
-                elif i.CONTAINER_TYPE is Container.MAP:
-                    part_spec = {"type": "map_value"}
-                elif i.CONTAINER_TYPE is Container.LIST:
-                    part_spec = {"type": "list_value"}
-                else:
-                    raise RuntimeError(f"Cannot convert part to a part spec: {i!r}.")
-            parts.append(part_spec)
+        """Get part specifications from which `from_part_specs` rebuilds an equal path."""
+        parts = [i.to_spec() for i in self.parts]
+        if not self.is_concrete and parts and not any(isinstance(i, dict) for i in parts):
+            # a path built from primitive specs only would be concrete:
+            parts[-1] = self.parts[-1].to_spec(allow_primitive=False)
         return parts
 
     @classmethod
@@ -508,6 +499,34 @@ class ContainerValue:
         ):
             return True
         return False
+
+    def to_spec(self, allow_primitive=True):
+        """Get a part specification that `DataPath.from_part_specs` turns back into an equal
+        part: a primitive (a map key or list index) if a primitive is converted into exactly
+        this part, and otherwise a mapping with the part type, conditions and label."""
+
+        if allow_primitive and self.label is None:
+            condition = getattr(self, "map_condition", self.condition)
+            try:
+                value = condition.callable.kwargs["value"]
+            except (AttributeError, KeyError):
+                value = None
+            if isinstance(value, (str, int, float)) and DataPath(value).parts[0] == self:
+                return value
+
+        type_names = {
+            MapValue: "map_value",
+            ListValue: "list_value",
+            MapOrListValue: "map_or_list_value",
+        }
+        spec = {"type": type_names[type(self)]}
+        for name in ("condition", "list_condition", "map_condition"):
+            condition = getattr(self, name, None)
+            if condition is not None and not condition.is_null:
+                spec[name] = condition.to_json_like()
+        if self.label is not None:
+            spec["label"] = self.label
+        return spec
 
     @staticmethod
     def from_spec(spec):
